@@ -141,7 +141,7 @@ def explore(args):
             if time.monotonic() > deadline:
                 break
             faulthandler.dump_traceback_later(SCENARIO_WATCHDOG_S, exit=True)
-            rec = {"index": index}
+            rec = {"index": index, "variant": int(args.get("variant", 0))}
             try:
                 sc = make_scenario(mod, prop, verif_seed, index, tier)
                 rec["seed"] = sc["seed"]
